@@ -524,6 +524,10 @@ class Polygon(Shape2D):
             attempt += 1
             try:
                 center, r2 = miniball.get_bounding_ball(vertices)
+                # miniball occasionally returns a ball that misses some of the points
+                # (its containment tests are exact); treat that like a failed solve.
+                if np.any(np.sum((vertices - center) ** 2, axis=1) > r2 * (1 + 1e-6)):
+                    raise np.linalg.LinAlgError
                 break
             except np.linalg.LinAlgError:
                 current_rotation = rowan.random.rand(1)
